@@ -53,10 +53,14 @@ func TestVerifC11(t *testing.T) {
 	alpha := func(monitor bool) dvAlphabet {
 		return dvAlphabet{
 			maxDepth:   depth,
+			maxCases:   120000,
 			waitCancel: true,
-			dials: func(cancelled bool) []dvDial {
+			dials: func(cancelled bool, at int) []dvDial {
 				var l []dvDial
-				for i, st := range dvRealDials(full) {
+				for i, st := range dvRealDials(full && at < 3) {
+					if at >= 4 && i != 0 && i != 2 && i != 4 {
+						continue // deep levels: all ok / lookup not ready / get error
+					}
 					if monitor && (st.Get != dvSOk || st.Set != dvSOk) {
 						continue // a monitor never reaches the sysctl steps
 					}
@@ -67,17 +71,23 @@ func TestVerifC11(t *testing.T) {
 				}
 				return l
 			},
-			tasks: func(cancelled bool) []dvTask {
+			tasks: func(cancelled bool, at int) []dvTask {
 				var l []dvTask
 				for _, r := range []int{dvOK, dvLinkChange, dvSyscall, dvPerm, dvCanceled} {
 					for _, rs := range restoreAlpha {
 						if monitor && rs != dvSOk {
 							continue
 						}
+						if !full && r == dvSyscall {
+							continue // quick: link change stands for the recoverable class
+						}
+						if at >= 4 && ((r != dvOK && r != dvLinkChange) || (rs != dvSOk && rs != dvSOther && rs != dvSPerm)) {
+							continue // deep levels: reduced alphabet
+						}
 						te := dvDefaultTask
 						te.R, te.Restore = r, rs
 						l = append(l, te)
-						if rs == dvSOk && (r == dvOK || r == dvLinkChange) {
+						if rs == dvSOk && (r == dvLinkChange || (full && r == dvOK)) {
 							bad := te
 							bad.Leave, bad.Close = false, false
 							l = append(l, bad)
